@@ -51,7 +51,7 @@ func (c10) Runs(tier string) int {
 	if tier == "thorough" {
 		return 50000
 	}
-	return 1000
+	return 2500
 }
 func (c10) RequiredProbes(string) []string { return []string{"destructive_op_on_protected_version"} }
 
